@@ -23,8 +23,7 @@ choose_alg = Spec(
     params=dict(alg_type='str', local_algs='seq[opaque:Alg]', remote_algs='seq[opaque:Alg]'),
     classes={'SSHConnection': CONN},
     stubs={'self.is_client': lambda cx: cx.selff('_is_client'),
-           # error-message formatting only: b",".join(algs).decode('ascii')
-           'b",".join': ret('bytes', 'joined')},
+           },
     loops={1: LoopSpec(header='for alg in client_algs',
                        invariant=lambda c: no_common_before_z(c.extra['iter'].z, c.local('server_algs'),
                                                               c.extra['i']))},
